@@ -569,7 +569,7 @@ func (c *compiler) compile(tok *token) []instruction {
 			if len(args) > 0 && args[len(args)-1].Symbol == "..." {
 				ellipsis = 1
 			}
-			res = append(res, instruction{Code: code, A: reg(len(args)), B: reg(ellipsis)})
+			res = append(res, instruction{Code: code, A: reg(len(args)), B: reg(ellipsis), C: reg(tok.Tokens[callReturns].Int())})
 		} else {
 			fnc := c.compile(tok.Tokens[callName])
 			if tok.Tokens[callName].Symbol == "(name)" {
